@@ -61,4 +61,6 @@ def run(env: Env) -> Outcome:
         out.violations.append(Violation("C26/dbos_release_without_cas",
                                         f"TickIdleRelease was sent although no begin_release won the CAS: lock calls {o0['lock_calls']}",
                                         {"kind": "dbos_standin", "create_row": False}))
+    # DBOS half under latency: a lifecycle lock whose calls really suspend, sends placed on the instants of a release / a resume
+    LP.run_dbos_gated(env, out, "C26", env.budget(40, 1500))
     return out
